@@ -48,7 +48,7 @@ Recs(e, x, what) == IF what = "invalid-accepted" THEN {FindingRec(e, what, f) : 
 
 TInit == l = 1 /\ nfail = 0 /\ cnt = [accept |-> 0, reject |-> 0, unjudged |-> 0]
 TNext == /\ l <= Len(Events)
-         /\ LET e == Events[l]  x == Expect(e.tree)  w == Judge(e, x) IN
+         /\ LET e == Events[l]  x == ExpectX(e.tree, ExtFns[e.ext])  w == Judge(e, x) IN
               /\ cnt' = [cnt EXCEPT ![x.verdict] = @ + 1]
               /\ IF w = "none" THEN UNCHANGED nfail
                  ELSE LET rs == Recs(e, x, w) IN
